@@ -2,7 +2,8 @@
 
 proof:          lean/XalanModel/Props/C01.lean — walker (iterative execute = recursive traversal),
                 VariablesStack (findEntry = lexical lookup), pending start tag (flushPending protocol =
-                §7.1.3 tree construction), over lean/XalanModel/C01/{Walker,Variables,Pending}.lean
+                §7.1.3 tree construction), Core (engine model = Spec.transform on a fragment, oracle instantiated),
+                over lean/XalanModel/C01/{Walker,Variables,Pending,Core,CoreMono,CoreSpec}*.lean
 correspondence: harness/c01_xslt.cpp (real XalanTransformer in-process; result captured as SAX events at a
                 FormatterListener; real VariablesStack driven by op logs) vs lean/Driver/C01.lean
                 (Spec.lean: independent XSLT 1.0 core interpreter; Variables/Pending/Walker models),
@@ -21,34 +22,59 @@ LEVEL = "proof"
 TECHNIQUE = ("Lean 4 proofs about hand models of the three engine mechanisms (iterative instruction walker, variables stack, "
              "pending start tag) + differential correspondence of the real XalanTransformer against an independent "
              "executable XSLT 1.0 core specification written in Lean")
-LEVEL_TEXT = ("Machine-checked for all inputs: (1) walker_eq_recursion / walker_restores_stack — for every instruction tree over "
-              "leaf / block / call-template / choose / for-each (any node count) / apply-templates (any sequence of selected templates) / use-attribute-sets (any nested sets), any nesting "
+LEVEL_TEXT = ("PROVED in Lean, for all inputs (15 theorems, lean/XalanModel/Props/C01.lean): "
+              "(1) walker_eq_recursion / walker_restores_stack — for every instruction tree over leaf / block / call-template / choose / "
+              "for-each (any node count) / apply-templates (any sequence of selected templates) / use-attribute-sets (any nested sets), any nesting "
               "and call graph, the iterative startElement/endElement/getInvoker/getNextChildElemToExecute loop of ElemTemplateElement::execute "
-              "issues exactly the event sequence of the recursive traversal and restores the invoker and node-list stacks; "
+              "issues exactly the event sequence of the recursive traversal and restores the invoker and node-list stacks. "
               "(1b) core_refines_spec_partial — the same loop with data (current-node stack, node lists, output through the pending start tag; "
-              "selects / rule choice / branches / strings by an arbitrary oracle of the context) delivers exactly normalize of the recursive "
-              "specification for the fragment value-of / attributes / copy-of, comment, PI / LRE / call-template / choose / for-each / "
-              "apply-templates; "
-              "(2) variables_lexical(_params) / variables_lookup_pure / variables_balanced — VariablesStack::findEntry returns the innermost binding of the current template "
-              "instance, else the global one, whatever the callers' frames hold, and popContextMarker discards a frame whole; "
+              "selects / rule choice / branches / strings answered by an ARBITRARY oracle of the context) delivers exactly normalize of the "
+              "recursive instantiation Core.inst, for the fragment value-of / attributes / copy-of, comment, PI / literal result elements / "
+              "call-template / choose / for-each / apply-templates. "
+              "(1c) core_refines_spec_total / core_refines_spec — NO abstract oracle and NO assumed program: CoreSpec.compile is a total compiler "
+              "from the specification's stylesheets to Core programs (with annotation infoOf and layout layoutOf), inFragment a decidable "
+              "test; for EVERY stylesheet passing the test (literal text / value-of / literal result elements without attributes / if / "
+              "choose / for-each / apply-templates without sort and params / call-template without params / all built-in rules; any "
+              "patterns, modes, priorities, import precedences; no keys, strip-space, global variables, namespace-alias) and every document, "
+              "with the oracle CoreSpec.oracleOf whose every answer IS Spec.eval / chooseTemplateIdx / toStr: whatever tree the "
+              "specification Spec.transform defines, the iterative engine model Core.run on compile ss produces exactly that tree. "
+              "(core_refines_spec is the relational form for any program that Represents the stylesheet; represents_compile proves the "
+              "compiler establishes it; CoreSpecProofs.simS simulates the five mutually recursive functions of Spec.lean by the four of "
+              "Core.inst by induction on the specification's fuel.) "
+              "(2) variables_lexical(_params) / variables_lookup_pure / variables_balanced — VariablesStack::findEntry returns the innermost "
+              "binding of the current template instance, else the global one, whatever the callers' frames hold, and popContextMarker "
+              "discards a frame whole. "
               "(3) pending_refines_spec / pending_wellformed — for every sequence of engine calls the pending-start-tag protocol of "
               "XSLTEngineImpl delivers a balanced stream with attributes only inside start tags, and exactly the XSLT 7.1.3 tree when "
-              "attributes are added through the guarded path. Counterexample theorems (replayed on the real engine) show where the code as it is "
-              "violates the full statement. The full property (every stylesheet x document yields the Recommendation's tree) is decided by "
-              "correspondence only: generated stylesheets x documents run through the real XalanTransformer and through the Lean "
-              "specification interpreter (Spec.lean), event lists compared; each mechanism model is tied to the real class by its own op-log run.")
-LEVEL_NOTE = ("Partial: the refinement proof to the recursive specification (core_refines_spec_partial) covers a fragment and takes the "
-              "XPath/pattern layer as an oracle (tied to Spec.eval only by the core correspondence stream); no proof connects the whole of "
-              "XSLT/*.cpp to Spec.lean; outside the proved mechanisms the "
-              "assurance is differential testing against the Lean specification, bounded by generator coverage (subset: template "
-              "rules with match/name/mode/priority, apply-templates, call-template, for-each, sort, value-of, copy, copy-of, element, "
-              "attribute, text, comment, processing-instruction, if, choose, variable, param, with-param, literal result elements with "
-              "AVTs, global variables, attribute sets (merged by import precedence), keys, xsl:number (value / level / count / from, "
-              "multi-token formats), strip-space, import trees + include + apply-imports; "
-              "XPath: 10 axes, node tests, predicates, 31 functions, arithmetic on exact dyadic rationals (div by powers of two); no namespaces, "
-              "xsl:include). Walker model: conditions / node counts / selected templates are parameters of the tree, "
-              "the direct-template shortcut is treated as a call; Variables model: values and names are numbers, lazily evaluated "
-              "variables not modelled; Pending model: attribute list abstracted to an association list, namespaces/CDATA/HTML switch out of scope. "
+              "attributes are added through the guarded path. Three counterexample theorems (replayed on the real engine) show where the "
+              "code as it was violated the full statement. "
+              "ONLY COMPARED (differential, not proved): the full property — every stylesheet x document yields the Recommendation's tree — "
+              "is decided by running generated stylesheets x documents through the real XalanTransformer and through the Lean specification "
+              "interpreter Spec.transform and comparing the delivered event lists (expanded names, attributes as sets, adjacent text merged); "
+              "each hand model (Walker, Variables, Pending, Core) is tied to the real class by its own op-log run, and stylesheets of the "
+              "proved fragment are additionally run exactly as in the conclusion of core_refines_spec_total (Core.run on compile ss with oracleOf) and compared with engine and specification.")
+LEVEL_NOTE = ("Partial. What the proofs do NOT cover: no Lean model of the whole of XSLT/*.cpp exists, so real engine = Core model is a "
+              "correspondence (op logs, TraceListener order), not a theorem; core_refines_spec covers the narrow fragment above (no "
+              "variables / parameters / attributes / copy / sort / keys / strip-space / global variables / xsl:number / xsl:apply-imports — these are in "
+              "Spec.lean and are compared only); expression values inside Spec.lean use a constant fuel (evalFuel = 1000), so "
+              "a deeper XPath evaluation is 'undefined' in the specification (the generator stays far below; the check fails on any "
+              "spec-undefined reply). "
+              "Compared subset (generator coverage bounds the assurance): template rules with match/name/mode/priority, key() and id-free "
+              "patterns, apply-templates, call-template, for-each, sort, value-of, copy, copy-of, element and attribute (name AVTs, "
+              "namespace= AVTs, namespace=\"\"), text, comment, processing-instruction, if, choose, variable, param, with-param, literal result "
+              "elements with AVTs, global variables/params, attribute sets (merged by import precedence), keys (several declarations of one "
+              "name, also in imported modules), xsl:number (value / level / count / from, multi-token formats), strip-space with xml:space "
+              "(XSLT 3.4), xsl:namespace-alias (single module), import trees + include + apply-imports with named templates / globals / keys "
+              "in imported modules, re-execution of the same invocation; documents with prefixed elements / attributes (two prefixes for one "
+              "URI), a default namespace, xml:space, comments, PIs, whitespace-only text; XPath: 10 axes, node tests, predicates, 31 "
+              "functions, arithmetic on exact dyadic rationals (div by powers of two only — other quotients and their number->string "
+              "rounding are NOT generated, see C18). NOT compared: namespace nodes / xmlns declarations of the result (only expanded names "
+              "are), hence exclude-result-prefixes; xsl:output and serialisation (C04/C08); xsl:message, document(), extension elements, "
+              "decimal-format, fallback; error cases (C03). "
+              "Model abstractions: Walker — conditions / node counts / selected templates are parameters of the tree, the direct-template "
+              "shortcut is treated as a call; Variables — values and names are numbers, lazily evaluated variables not modelled; Pending — "
+              "attribute list abstracted to an association list, namespaces/CDATA/HTML switch out of scope. "
+              "Run time is bounded: at most 8 failing cases are listed, 3 shrunk, 150 s (quick) spent on failures in total. "
               "Trusted: Lean kernel; axioms propext/Classical.choice/Quot.sound only; Spec.lean as a transcription of the Recommendations; "
               "the hand transcriptions (each checked against the real code by an op-log correspondence: TraceListener order, real "
               "VariablesStack, FormatterListener events); Xerces parser; generator/harness/canonicaliser.")
@@ -58,6 +84,8 @@ THEOREMS = [
     "XalanModel.Props.C01.walker_eq_recursion",
     "XalanModel.Props.C01.walker_restores_stack",
     "XalanModel.Props.C01.core_refines_spec_partial",
+    "XalanModel.Props.C01.core_refines_spec",
+    "XalanModel.Props.C01.core_refines_spec_total",
     "XalanModel.Props.C01.variables_lexical",
     "XalanModel.Props.C01.variables_lexical_params",
     "XalanModel.Props.C01.variables_lookup_pure",
@@ -73,8 +101,10 @@ THEOREMS = [
 # ------------------------------------------------------------------------------------------
 # canonical form of a reply
 
-def canon(reply):
-    """('ok', tuple of events) | ('err', text).  Events: ('S', name, ((an, av)...)), ('T', s), ('C', s), ('P', t, d), ('E', name).
+def canon(reply, dedup=False):
+    """dedup=True: attributes of one element with the same *expanded* name collapse (the later one wins, XSLT 7.1.3) -- used
+    only to recognise the recorded defect 'duplicate-expanded-attribute'.
+    ('ok', tuple of events) | ('err', text).  Events: ('S', name, ((an, av)...)), ('T', s), ('C', s), ('P', t, d), ('E', name).
     Adjacent text merged, empty text dropped, attributes sorted by name (later value wins)."""
     if reply is None:
         return ("crash", "")
@@ -82,13 +112,14 @@ def canon(reply):
     if not w or w[0] != "ok":
         return ("err", reply[:300])
     evs = []
-    scopes = [{}]            # namespace declarations in scope on the delivered stream (prefix -> URI)
+    scopes = [{"xml": "http://www.w3.org/XML/1998/namespace"}]   # namespace declarations in scope on the delivered stream
 
-    def resolve(q):
-        # expanded name `{uri}local`; names already expanded (the Lean side) and unprefixed names stay as they are
-        if q.startswith("{") or ":" not in q:
+    def resolve(q, elem=False):
+        # expanded name `{uri}local`; names already expanded (the Lean side) stay as they are; an unprefixed element
+        # name takes the default namespace in scope, an unprefixed attribute name is in no namespace
+        if q.startswith("{") or (":" not in q and not elem):
             return q
-        pfx, loc = q.split(":", 1)
+        pfx, loc = q.split(":", 1) if ":" in q else ("", q)
         for sc in reversed(scopes):
             if pfx in sc:
                 return "{%s}%s" % (sc[pfx], loc) if sc[pfx] else loc
@@ -132,14 +163,48 @@ def canon(reply):
         if e[0] == "S":
             scopes.append(e[3])
             # namespace declarations are not compared (they are not attributes); names are compared expanded
-            out.append(("S", resolve(e[1]), tuple(sorted((resolve(n), v) for n, v in e[2].items()))))
+            if dedup:
+                out.append(("S", resolve(e[1], True), tuple(sorted({resolve(n): v for n, v in e[2].items()}.items()))))
+            else:
+                out.append(("S", resolve(e[1], True), tuple(sorted((resolve(n), v) for n, v in e[2].items()))))
         elif e[0] == "E":
-            out.append(("E", resolve(e[1])))
+            out.append(("E", resolve(e[1], True)))
             if len(scopes) > 1:
                 scopes.pop()
         else:
             out.append(tuple(e))
     return ("ok", tuple(out))
+
+
+def equal_modulo_duplicate_attributes(ci, cm):
+    """the engine's tree `ci` and the specification's tree `cm` (canonical event tuples) are equal except that, on some
+    elements, the engine delivered several attributes with one expanded name (different prefixes) where the specification
+    has one, whose value is one of those delivered -- the recorded defect duplicate-expanded-attribute.  At least one
+    such element must exist."""
+    if len(ci) != len(cm):
+        return False
+    seen = False
+    for a, b in zip(ci, cm):
+        if a[0] != "S" or b[0] != "S":
+            if a != b:
+                return False
+            continue
+        if a[1] != b[1]:
+            return False
+        names = [n for n, _ in a[2]]
+        dups = {n for n in names if names.count(n) > 1}
+        if not dups:
+            if a != b:
+                return False
+            continue
+        seen = True
+        if [x for x in a[2] if x[0] not in dups] != [x for x in b[2] if x[0] not in dups]:
+            return False
+        for n in dups:
+            bv = [v for m, v in b[2] if m == n]
+            if len(bv) != 1 or bv[0] not in [v for m, v in a[2] if m == n]:
+                return False
+    return seen
 
 
 def trace_of(reply):
@@ -216,14 +281,20 @@ def run_lines(harness, model, lines, work, tag):
     return il, ml, irc, mrc, ierr_all, merr_all
 
 
-def run_harness_only(harness, lines):
+def run_harness_only(harness, lines, timeout=900):
     import subprocess
     res = []
     err = ""
     rc = 0
     for k in range(0, len(lines), CHUNK):
         part = lines[k:k + CHUNK]
-        p = subprocess.run([harness], input=("\n".join(part) + "\n").encode(), stdout=subprocess.PIPE, stderr=subprocess.PIPE, timeout=3000)
+        try:
+            p = subprocess.run([harness], input=("\n".join(part) + "\n").encode(), stdout=subprocess.PIPE, stderr=subprocess.PIPE, timeout=timeout)
+        except subprocess.TimeoutExpired:
+            res.extend([None] * len(part))
+            rc = 124
+            err += "harness timed out"
+            continue
         out = p.stdout.decode("utf-8", "replace").split("\n")
         out = out[:-1] if out and out[-1] == "" else out
         res.extend(out[:len(part)] + [None] * (len(part) - len(out)))
@@ -233,11 +304,11 @@ def run_harness_only(harness, lines):
     return res, rc, err
 
 
-def run_two_phase(harness, model, lines):
-    """harness first; the Lean interpreter only on the cases the harness did not abandon as oversized"""
-    il, irc, ierr = run_harness_only(harness, lines)
-    keep = [i for i in range(len(lines)) if il[i] != "big"]
-    mo = run_model_only(model, [lines[i] for i in keep])
+def run_two_phase(harness, model, lines, timeout=900):
+    """harness first; the Lean interpreter only on the cases the harness did not abandon as oversized (or died on)"""
+    il, irc, ierr = run_harness_only(harness, lines, timeout)
+    keep = [i for i in range(len(lines)) if il[i] != "big" and il[i] is not None]
+    mo = run_model_only(model, [lines[i] for i in keep], timeout)
     ml = [None] * len(lines)
     for i, o in zip(keep, mo):
         ml[i] = o if o != "" else None
@@ -266,12 +337,16 @@ def verdict(ir, mr):
 QUIRKS = [(1, "param-activation-leak")]
 
 
-def run_model_only(model, lines):
+def run_model_only(model, lines, timeout=900):
     import subprocess
     res = []
     for k in range(0, len(lines), CHUNK):
         part = lines[k:k + CHUNK]
-        p = subprocess.run([model], input=("\n".join(part) + "\n").encode(), stdout=subprocess.PIPE, stderr=subprocess.PIPE, timeout=3000)
+        try:
+            p = subprocess.run([model], input=("\n".join(part) + "\n").encode(), stdout=subprocess.PIPE, stderr=subprocess.PIPE, timeout=timeout)
+        except subprocess.TimeoutExpired:
+            res.extend([""] * len(part))
+            continue
         out = p.stdout.decode("utf-8", "replace").split("\n")
         out = out[:-1] if out and out[-1] == "" else out
         res.extend(out[:len(part)] + [""] * (len(part) - len(out)))
@@ -399,16 +474,20 @@ def variants(ss, doc):
             yield ss, doc[:ti] + [v] + doc[ti + 1:]
 
 
-def shrink(harness, model, ss, doc, work, want, max_rounds=80):
+def shrink(harness, model, ss, doc, work, want, max_rounds=60, deadline=None):
     """greedy; a variant is kept when it shows the same failure class and (for mismatches) is still not
-    explained by the modelled engine behaviours"""
+    explained by the modelled engine behaviours.  Bounded: `max_rounds` rounds, at most 400 variants per round, stops at
+    `deadline` (wall clock); variants the harness abandons as oversized never reach the Lean interpreter."""
+    import time
     cur = (ss, doc)
     for _ in range(max_rounds):
-        vs = list(variants(*cur))
+        if deadline is not None and time.time() > deadline:
+            break
+        vs = list(variants(*cur))[:400]
         if not vs:
             break
         lines = [G.request_line("s%d" % i, v[0], v[1]) for i, v in enumerate(vs)]
-        il, ml, irc, _, _, _ = run_lines(harness, model, lines, work, "shrink")
+        il, ml, irc, _, _, _ = run_two_phase(harness, model, lines, timeout=60)
         hit = None
         for i in range(len(vs)):
             ir = il[i] if i < len(il) else None
@@ -483,7 +562,20 @@ DOC2 = [("E", "r", [], [("E", "b", [], [("E", "c", [], [])]), ("E", "d", [], [])
 
 DOC3 = [("E", "r", [], [("E", "c", [("q:x", "abc")], [])])]
 
+DOC4 = [("E", "r", [], [("E", "a", [("q:x", "3")], []), ("E", "b", [("p:x", "abc")], [])])]
+
 TAGGED_CORPUS = [
+    # xsl:namespace-alias in the importing module, the literal result element in the imported one: a top-level declaration
+    # holds for the whole stylesheet (XSLT 7.1.1: "the declaration with the highest import precedence is used"), but
+    # NamespacesHandler keeps the aliases per module (known finding)
+    ("namespace-alias-imported-module",
+     {"globals": [], "templates": [{"pats": [("root",)], "name": None, "mode": None, "prio": None, "body": [LRE("p:item", [])],
+                                    "mod": 1, "prec": 0, "low": 0}],
+      "modules": [{"imports": [1], "includes": []}, {"imports": [], "includes": []}], "imports": 1, "alias": [("urn:p", "urn:q")]}, DOC0),
+    # two attribute nodes with the same expanded name {urn:p}x but different prefixes copied onto one element: the
+    # second must replace the first (XSLT 7.1.3); both are delivered (known finding, also recorded by C14)
+    ("duplicate-expanded-attribute",
+     {"globals": [], "templates": [ROOT_T([LRE("w", [{"k": "copyof", "e": ("step", ("step", ("ctx",), "descendant", "star", []), "attribute", "star", [])}])])]}, DOC4),
     # copying an attribute node whose prefix the receiving element does not declare: the prefix stays undeclared
     ("copy-namespaced-attribute-undeclared-prefix",
      {"globals": [], "templates": [ROOT_T([LRE("out", [{"k": "copyof", "e": ("step", ("step", ("ctx",), "descendant", ("name", "c"), []), "attribute", "star", [])}])])]}, DOC3),
@@ -557,9 +649,18 @@ def run(ctx):
     ctx.extra["oversized_cases_skipped"] = sum(1 for x in il if x == "big")
     undefined = []
     nshrunk = 0
+    import time
+    # bounded failure handling: whatever the number of failing cases, the xslt stream spends at most FAIL_BUDGET seconds
+    # on classifying / shrinking / re-running them, records at most MAXFAIL failing cases and shrinks the first 3
+    FAIL_BUDGET = 150 if not ctx.thorough else 600
+    MAXFAIL = 8
+    t_fail0 = time.time()
+    nfailing = 0
     mism = [i for i in range(len(cases))
             if verdict(il[i] if i < len(il) else None, ml[i] if i < len(ml) else None) == "mismatch"]
-    why_of = dict(zip(mism, explain_many(model, [(lines[i], canon(il[i])) for i in mism])))
+    ctx.extra["xslt_mismatching_cases"] = len(mism)
+    mism_x = mism[:300]
+    why_of = dict(zip(mism_x, explain_many(model, [(lines[i], canon(il[i])) for i in mism_x])))
     for i, (ss, doc, feats) in enumerate(cases):
         ir = il[i] if i < len(il) else None
         mr = ml[i] if i < len(ml) else None
@@ -606,13 +707,23 @@ def run(ctx):
                      % (show(ci[1])[:300], show(canon(mr)[1])[:300]),
                      {"stylesheet": G.stylesheet_xml(ss), "document": "".join(G.doc_xml(t) for t in doc), "request": lines[i]})
             continue
-        if nshrunk < 4:
+        if v == "mismatch" and equal_modulo_duplicate_attributes(ci[1], canon(mr)[1]):
+            # the only difference: two attributes with the same expanded name but different prefixes were both delivered
+            ctx.fail("xslt.duplicate-expanded-attribute", "an element was delivered with two attributes of the same expanded name "
+                     "(different prefixes): impl=%s spec=%s" % (show(ci[1])[:300], show(canon(mr)[1])[:300]),
+                     {"stylesheet": G.stylesheet_xml(ss), "document": "".join(G.doc_xml(t) for t in doc), "request": lines[i]})
+            continue
+        nfailing += 1
+        if nfailing > MAXFAIL:
+            ctx.extra["xslt_failing_cases_not_listed"] = "more than %d failing cases; stopped listing" % MAXFAIL
+            break
+        if nshrunk < 3 and time.time() - t_fail0 < FAIL_BUDGET:
             nshrunk += 1
-            ss2, doc2 = shrink(harness, model, ss, doc, work, v)
+            ss2, doc2 = shrink(harness, model, ss, doc, work, v, deadline=t_fail0 + FAIL_BUDGET)
         else:
             ss2, doc2 = ss, doc
         line2 = G.request_line("r", ss2, doc2)
-        i2, m2, _, _, _, _ = run_lines(harness, model, [line2], work, "one")
+        i2, m2, _, _, _, _ = run_two_phase(harness, model, [line2], timeout=60)
         ci2, cm2 = canon(i2[0] if i2 else None), canon(m2[0] if m2 else None)
         si = show(ci2[1]) if ci2[0] == "ok" else str(ci2)
         sm = show(cm2[1]) if cm2[0] == "ok" else str(cm2)
